@@ -10,8 +10,8 @@ CONSTANTS
  MaxF = 3
  MaxCrash = 0
  Streams = {1, 2}
- FSteps = {0, 1, 2, 3, 4}
- FAuth = {"ok", "sig", "ver"}
+ FSteps = {0, 1}
+ FAuth = {"ok"}
 INVARIANTS Safety
 
 CHECK_DEADLOCK FALSE
